@@ -31,7 +31,8 @@ RULE = ("case = one random abstract design (1-3 libraries incl. 'external', 2-8 
         "bits, or a cross-library reference")
 ASSUMPTIONS = ["port base index is not compared (not in the statement)",
                "only constructs the reader implements are emitted (others belong to C15)"]
-REQUIRED = {"texts_parsed": 150, "nets_compared": 1500, "portrefs_compared": 4000}
+REQUIRED = {"texts_parsed": 150, "nets_compared": 1500, "portrefs_compared": 4000,
+            "designs_whose_top_identifier_is_in_two_libraries": 10, "designs_with_bracketed_bus_base_name": 20}
 DIRS = {"IN": "INPUT", "OUT": "OUTPUT", "INOUT": "INOUT", "UNDEFINED": None}
 
 
@@ -166,6 +167,13 @@ def run_case(ctx, i, rng):
             return
         design = model.gen_design(rng)
         design["_top_ref"] = design["top"]
+        ids = [c["name"][0].lower() for L in design["libs"] for c in L["cells"]]
+        if len(ids) != len(set(ids)):
+            ctx.count("designs_with_a_cell_identifier_in_two_libraries")
+            if ids.count(design["top"][0].lower()) > 1:
+                ctx.count("designs_whose_top_identifier_is_in_two_libraries")
+        if any(N["base"] and "[" in N["base"][1] for L in design["libs"] for c in L["cells"] for N in c["nets"]):
+            ctx.count("designs_with_bracketed_bus_base_name")
         if i % 5 == 0:
             design["_top_ref"] = (design["top"][0].swapcase(), design["top"][1].swapcase())
         text = write_edif.write(design, rng, style=(i % 7 != 0))
